@@ -468,6 +468,10 @@ type c05Conn struct {
 	rdl       time.Duration // ... at this virtual time
 	rdlSeq    int           // ... set by the call with this sequence number
 	rdlVT     time.Duration // ... at this virtual time
+	wdlSet    bool          // a write deadline is in force (moved by SetDeadline / SetWriteDeadline)
+	wdl       time.Duration
+	wdlSeq    int
+	wdlVT     time.Duration
 	stepBase  time.Duration // virtual time at which the previous read step was delivered completely
 	epochAt   int           // index+1 of the last step whose epoch roll-over was performed
 	arrived   bool          // the current step's pause is over
@@ -599,7 +603,7 @@ func (c *c05Conn) read(d int, p []byte) (int, error) {
 				}
 				c.arrived = true
 			}
-			if st.Epoch && c.epochAt <= c.ri && w.onEpoch != nil && !w.free && w.abort == nil {
+			if st.Epoch && c.epochAt <= c.ri && w.onEpoch != nil && (!w.free || w.solo) && w.abort == nil {
 				c.epochAt = c.ri + 1
 				w.onEpoch()
 			}
@@ -692,6 +696,10 @@ func (c *c05Conn) write(d int, p []byte) (int, error) {
 	kind := ""
 	if c.closed {
 		n, kind = 0, "closed"
+	} else if !w.solo && c.wdlSet && w.vnow >= c.wdl {
+		// the write deadline in force lies in the (virtual) past: a socket refuses the write at once
+		n, kind = 0, "timeout"
+		e.Fault, e.DLDriven, e.DLSetSeq, e.DLSetVT, e.DLVal = true, true, c.wdlSeq, c.wdlVT, c.wdl
 	} else {
 		for _, f := range c.s.WF {
 			if f.Call == idx {
@@ -727,8 +735,10 @@ func (c *c05Conn) write(d int, p []byte) (int, error) {
 	return n, c.mkErr(kind, "write")
 }
 
-// setDL: which is 'b' (SetDeadline), 'r' (SetReadDeadline) or 'w' (SetWriteDeadline). Only the read
-// deadline matters to the virtual clock (writes of the scripted connections never block).
+// setDL: which is 'b' (SetDeadline), 'r' (SetReadDeadline) or 'w' (SetWriteDeadline). The read
+// deadline can expire while a Read waits; writes of the scripted connections never block, but a
+// Write issued when the write deadline in force already lies in the virtual past fails with the
+// time-out error, as on a socket.
 func (c *c05Conn) setDL(d int, t time.Time, which byte) error {
 	w := c.w
 	w.mu.Lock()
@@ -751,6 +761,12 @@ func (c *c05Conn) setDL(d int, t time.Time, which byte) error {
 			c.ev(c05Ev{Dir: d, Op: "setdl", Call: mine, Err: f.Err, Fault: true})
 			return c.mkErr(f.Err, "set")
 		}
+	}
+	if which != 'r' {
+		c.wdlSet = !t.IsZero()
+		c.wdl = w.vnow + time.Until(t)
+		c.wdlSeq = w.seq + 1
+		c.wdlVT = w.vnow
 	}
 	if which != 'w' {
 		c.dlSet = !t.IsZero()
